@@ -7,6 +7,7 @@
   Core Lean only.
 -/
 import Gojq.Proofs.MiniSpecTie
+import Gojq.Proofs.MiniSpecLit
 import Gojq.Proofs.MiniVMProg
 namespace Gojq.MiniSpec
 open Gojq Gojq.MiniVM
